@@ -44,6 +44,8 @@ def run(tier):
     out.exhaustive = not out.extra.get('replay_sampled', False)
     out.assumptions = ['output matching inside a want is token equality here; the character-level relation is C05/C06',
                        'bodies are realised by the statement templates of harness/runlib.py (rotated by case hash + VERIF_SEED)']
+    # random longer programs (5..8 parts) from TLC's simulation mode over the same specification
+    runlib.simulate_replay(out, 'C02_Parts' + ' 5..8 parts', 'C02_Parts', 5, 8, 800 if tier == 'quick' else 15000)
     from . import tracelib
     tracelib.traced_replay(out, 'C02_Parts<=2', 'C02_Parts', 2)
     tracelib.suite_phase(out, tier)
